@@ -136,6 +136,11 @@ QNcFixed == <<
   MkDecl(32, <<>>, NameFields(ListKinds(32)), <<EnumExh("E2", 2), EnumNonExh("O3", 3)>>, <<>>, FALSE),
   MkDecl(27, <<>>, NameFields(ListKinds(27)), <<EnumExh("E2", 2), EnumNonExh("O3", 3)>>, <<>>, FALSE)
   >> \o
+  (* the SAME ordered list under several fields of one struct: scalar alias first, then arrays of it with different strides
+     (an accessor must not be shared between fields on the strength of equal range lists) *)
+  << MkDecl(32, <<>>, NameFields(<< L(<< <<0, 0>>, <<2, 3>> >>), LA(<< <<0, 0>>, <<2, 3>> >>, 4, 4), LA(<< <<0, 0>>, <<2, 3>> >>, 3, 8),
+                                    LS(<< <<4, 7>>, <<12, 15>> >>), LSA(<< <<4, 7>>, <<12, 15>> >>, 2, 16), L(<< <<0, 0>>, <<2, 3>> >>) >>), <<>>, <<>>, FALSE),
+     MkDecl(24, <<>>, NameFields(<< LA(<< <<1, 1>>, <<0, 0>> >>, 4, 2), LA(<< <<1, 1>>, <<0, 0>> >>, 3, 8), L(<< <<1, 1>>, <<0, 0>> >>) >>), <<>>, <<>>, FALSE) >> \o
   (* list arrays whose element 0 lies in the low half (quarter) of the storage while later elements cross into the upper part:
      an accessor must not size its arithmetic by element 0 alone *)
   [k \in 1..8 |-> LET W == <<16, 32, 64, 128, 24, 40, 100, 127>>[k] IN
